@@ -425,4 +425,11 @@ def suite_send_fault(ctx):
     return s
 
 
-SUITES = [suite_hist, suite_shape, suite_ctx, suite_direct, suite_two_clients, suite_send_fault]
+def suite_reentrant(ctx):
+    """the pending-response callback uses the client it belongs to: the request in flight goes on as if the callback had done nothing (frames, outcome, instant,
+    adopted timing) - harness/reentrant.py"""
+    from .. import reentrant
+    return reentrant.suite_reentrant(ctx)
+
+
+SUITES = [suite_hist, suite_shape, suite_ctx, suite_direct, suite_two_clients, suite_send_fault, suite_reentrant]
